@@ -22,7 +22,7 @@ FUNCTIONS = [
     "lasio/reader.py::read_data_section_iterative_normal_engine",
     "lasio/reader.py::read_data_section_iterative_numpy_engine",
 ]
-VALUES = [1.0, 2.5, -3.25, 1234.5678, 0.000123, -99999.5, 7.0, 0.5, -0.125, 42.0, 3.14159, 100000.0, 8.75, -1.5]
+VALUES = [1.0, -99999.75, -3.25, 1234.5678, 0.000123, -99999.5, 7.0, 0.5, -0.125, 42.0, 3.14159, 100000.0, 8.75, -1.5]
 FMTS = [("%.5f", 5), ("%.2f", 2), ("%10.3f", 3), ("%.1f", 1)]
 LNF = [None, -1, 12, 16]
 SPACERS = [" ", "  ", "\t"]
@@ -61,7 +61,7 @@ def build(ns, c, r, nanpos):
     if c > 1 and nanpos is not None:
         i, j = divmod(nanpos, c - 1)
         list.__getitem__(las.curves, 1 + j).data[i % r] = np.nan
-    las.well["NULL"].value = -999.25
+    las.well["NULL"].value = -99999.25  # a sample (-99999.75) is near it, but not equal at any of the formats
     return las
 
 
